@@ -308,7 +308,7 @@ mut('c12-setattr-stale (revert of fix)', ['C12'], 'plain assignment leaves the o
                 if registry in self.__dict__: self.__dict__[registry].pop(__name, None)
 """, "")], rules=['C12.REG-EXCLUSIVE'])
 mut('c12-register-module-keeps-param', ['C12'], 'register_module does not remove a same-named parameter', [(M, "        self._parameters.pop(name, None)\n        self._submodules[name] = module", "        self._submodules[name] = module")], rules=['C12.REG-EXCLUSIVE'])
-mut('c12-eval-no-recursion', ['C12', 'C13'], 'eval() does not recurse into submodules', [(M, "        self.training = False\n        for m in self.submodules():\n            m.eval()\n        return self", "        self.training = False\n        return self")], rules=['C12.MODE'])
+mut('c12-eval-no-recursion', ['C12', 'C13'], 'eval() does not recurse into submodules', [(M, "        self.training = False\n        for m in self.submodules():\n            m.eval()\n        return self", "        self.training = False\n        return self")], rules=['C12.MODE', 'C13.MODE'])
 mut('c12-train-recurses-eval', ['C12'], 'train() calls eval() on submodules', [(M, "        self.training = True\n        for m in self.submodules():\n            m.train()", "        self.training = True\n        for m in self.submodules():\n            m.eval()")], rules=['C12.MODE'])
 mut('c12-eval-skips-first', ['C12'], 'eval() skips the first submodule', [(M, "        self.training = False\n        for m in self.submodules():", "        self.training = False\n        for m in self.submodules()[1:]:")], rules=['C12.MODE'])
 mut('c12-unfreeze-own-only', ['C12'], 'unfreeze only touches the module\'s own parameters', [(M, "    def unfreeze(self):\n        for p in self.parameters():", "    def unfreeze(self):\n        for p in self._parameters.values():")], rules=['C12.MODE'])
@@ -365,9 +365,9 @@ mut('c19-uniform-randomstate', ['C19', 'C15'], 'uniform_ uses a private RandomSt
 mut('c19-seed-numpy-only', ['C19'], 'manual_seed no longer seeds Python\'s random', [(U, "    np.random.seed(seed)\n    random.seed(seed)", "    np.random.seed(seed)")], rules=['C19.SEED'])
 mut('c19-seed-constant', ['C19'], 'manual_seed seeds NumPy with a constant', [(U, "np.random.seed(seed)", "np.random.seed(0)")], rules=['C19.SEED'])
 mut('c19-sweep-over-visited-set', ['C19', 'C03'], 'backward sweeps the visited set instead of the order list', [(T, "enumerate(reversed(ordered_nodes))", "enumerate(visited_nodes)")], rules=['C19.ORDER', 'C03.TOPO'], accept_incomplete=True)
-mut('c19-split-python-time-seed', ['C19', 'C18'], 'split shuffle reseeds from the clock', [(DT, "            np.random.shuffle(indices)", "            import time; np.random.seed(int(time.time())); np.random.shuffle(indices)")], rules=['C19.SOURCE', 'C18'])
+mut('c19-split-python-time-seed', ['C19'], 'split shuffle reseeds from the clock', [(DT, "            np.random.shuffle(indices)", "            import time; np.random.seed(int(time.time())); np.random.shuffle(indices)")], rules=['C19.SOURCE', 'C18'])
 mut('c19-id-ordering', ['C19'], 'parameters() sorted by object address', [(M, "        return unique_params", "        return sorted(unique_params, key=lambda p: id(p))")], rules=['C19.NOADDR'])
-mut('c19-parameters-via-set', ['C19', 'C12'], 'parameters() de-duplicated through a set of tensors', [(M, "        return unique_params", "        return list(set(unique_params))")], rules=['C19.ORDER', 'C12'])
+mut('c19-parameters-via-set', ['C19', 'C12'], 'parameters() de-duplicated through a set of tensors', [(M, "        return unique_params", "        return list(set(unique_params))")], rules=['C19.ORDER', 'C12'], accept_incomplete=True)
 
 # ------------------------------------------------------------------------------------------------ C20
 mut('c20-step-before-backward', ['C20'], 'optimizer.step() before backward()', [(TR, "            train_loss.backward()\n            self.optimizer.step()", "            self.optimizer.step()\n            train_loss.backward()")], rules=['C20.STEP'])
@@ -389,7 +389,7 @@ mut('c13-dropout-eval-draws', ['C13'], 'Dropout draws (and consumes RNG state) b
 mut('c13-dropout-eval-scaled', ['C13'], 'Dropout scales the input in eval mode', [(LY, "        if not self.training: return x\n", "        if not self.training: return x * (1 - self.p)\n")], rules=['C13.DROP-EVAL'])
 mut('c13-dropout-two-draws', ['C13'], 'Dropout mixes two independent draws', [(LY, "random_data = np.random.rand(*x.shape)\n", "random_data = np.random.rand(*x.shape) * np.random.rand(*x.shape)\n")], rules=['C13.DROP-TRAIN'])
 mut('c13-bn-counter-in-eval', ['C13'], 'num_batches_tracked advances in eval mode too', [(LY, "        if self.training and self.track_running_stats:\n            if self.num_batches_tracked is not None:", "        if self.track_running_stats:\n            if self.num_batches_tracked is not None:")], rules=['C13.BN-ONCE'])
-mut('c13-bn-update-in-eval', ['C13', 'C20'], 'kernel updates the running mean whenever the buffer exists (also in eval)', [(K, "    if running_mean is not None and training:\n        running_mean = mean * momentum", "    if running_mean is not None:\n        running_mean = mean * momentum")], rules=['C13.BN-CHOICE', 'C13.BN-UPDATE'])
+mut('c13-bn-update-in-eval', ['C13'], 'kernel updates the running mean whenever the buffer exists (also in eval)', [(K, "    if running_mean is not None and training:\n        running_mean = mean * momentum", "    if running_mean is not None:\n        running_mean = mean * momentum")], rules=['C13.BN-CHOICE', 'C13.BN-UPDATE'])
 mut('c13-bn-eval-uses-batch-stats', ['C13'], 'layer passes bn_training=True whenever tracking is on', [(LY, "            bn_training = (self.running_mean is None) and (self.running_var is None)", "            bn_training = self.track_running_stats")], rules=['C13.BN-CHOICE'])
 mut('c13-bn-biased-running-var', ['C13'], 'running variance updated with the biased variance', [(K, "unbiased_var = var * (n / (n - 1))", "unbiased_var = var")], rules=['C13.BN-UPDATE'])
 mut('c13-bn-momentum-swapped', ['C13'], 'moving average weights swapped', [(K, "running_mean = mean * momentum + running_mean * (1 - momentum)", "running_mean = mean * (1 - momentum) + running_mean * momentum")], rules=['C13.BN-UPDATE'])
